@@ -250,6 +250,22 @@ def r4_raii(F, R, M, rule='R4'):
                     'constructor Ok path: %d allocations, zero-address test present=%s' % (len(allocs), zero_guard))
         errp = [p for p in paths if err_variant(p.ret) not in ('Ok', None)]
         R.check(bool(errp), rule, 'ctor:failure-is-error', where, 'allocation failure returns Err', 'constructor has no Err path for a failed allocation')
+        # the owner must not exist on a failure path: its Drop would hand a region that was never allocated to dma_dealloc
+        S = sg.sym
+        owner_aggs = [n.id for n in sg.nodes if n.kind == 'assign' and n.d['rv']['rv'] == 'agg' and n.d['rv'].get('adt') == dma]
+        err_rets = [n.id for n in sg.nodes if n.kind == 'assign' and n.d['rv']['rv'] == 'agg' and n.d['rv'].get('adt') == 'core::result::Result'
+                    and n.d['rv'].get('variant') == 'Err']
+        # also `?`-style residual returns
+        err_rets += [n.id for n in sg.calls(lambda d: 'from_residual' in d.get('fn', ''))]
+        live = sg.live_nodes()
+        after_owner = set()
+        for a in owner_aggs:
+            after_owner |= sg.reach_fwd(list(sg.nodes[a].succ))
+        bad = [e for e in err_rets if e in after_owner and e in live]
+        R.check(bool(owner_aggs) and not bad, rule, 'ctor:no-owner-on-failure-path', where,
+                'no Err return is reachable after the owner value has been built (%d constructions, %d Err returns)' % (len(owner_aggs), len(err_rets)),
+                'the RAII owner is built before the failure test (Err return at %s reachable after its construction): on a failed allocation the owner is dropped '
+                'and its Drop passes a region that was never allocated (physical address 0) to dma_dealloc' % (site(sg, sg.nodes[bad[0]]) if bad else '?'))
         inv = {v: k for k, v in roles.items()}
         drop = F.adts[dma].get('drop_impl')
         if not drop:
